@@ -1452,11 +1452,12 @@ fn get_common_pool_attrs(attrs: &Attrs) -> Result<PoolAttrs, ReadOpError> {
         .unwrap_or_default()
         .into();
     let padding = get_padding(attrs, kernel_size.len())?;
+    // Per spec: "If not present, the stride defaults to 1 along each spatial axis".
     let strides = attrs
         .get("strides")
         .map(|v| v.cast_ints())
         .transpose()?
-        .unwrap_or_default()
+        .unwrap_or_else(|| vec![1; kernel_size.len()])
         .into();
     Ok(PoolAttrs {
         ceil_mode,
